@@ -38,7 +38,7 @@ COMPONENTS = {
 PROBES = ["update_at_counter_9", "update_at_counter_0", "back_to_back_updates", "update_with_packets_in_flight",
           "three_wraparounds_between_updates", "reconnect", "sequence_sent_as_short", "two_pings_outstanding",
           "request_from_another_thread"]
-FAULT_KINDS = ["latency_jitter", "start_update_mid_burst", "reconnect", "start_unreadable_during_request"]
+FAULT_KINDS = ["latency_jitter", "start_update_mid_burst", "reconnect", "start_unreadable_during_request", "update_during_request"]
 SHRINK_KEYS = ["script", "local"]
 
 
@@ -66,8 +66,12 @@ def generate(streams, tier):
             script.append(["wait", rng.randrange(0, 300)])
     # a local history on one sequencer, with outages: the start in force raises while it is read
     local = []
-    for _ in range(rng.randrange(0, 60)):
-        r = rng.random()
+    long_history = rng.random() < 0.1
+    for _ in range(rng.randrange(100, 400) if long_history else rng.randrange(0, 60)):
+        r = rng.random() if not long_history else rng.random() * 0.5 + (0.5 if rng.random() < 0.5 else 0.0)
+        if rng.random() < 0.04:
+            local.append(["next_with_update_inside", rng.choice([0, 7, 240, 1756, rng.randrange(0, 70000)])])
+            continue
         if r < 0.5:
             local.append(["next"])
         elif r < 0.6:
@@ -287,7 +291,7 @@ def run_local(plan, s, res, tr):
     """One sequencer, no network: requests, updates and requests that fail because the start in force cannot
     be read (injected fault).  Only numbers actually returned count towards n."""
     from ..seams import SimFault
-    state = {"outage": False}
+    state = {"outage": False, "on_read": None}
 
     class ProbeStart(s.ss.SequenceStart):
         def __init__(self, v):
@@ -297,6 +301,9 @@ def run_local(plan, s, res, tr):
         def value(self):
             if state["outage"]:
                 raise SimFault("start value unavailable")
+            hook, state["on_read"] = state["on_read"], None
+            if hook is not None:
+                hook()          # something else happens while the request is in progress
             return self._v
 
     seq = s.PacketSequencer(ProbeStart(0))
@@ -327,6 +334,21 @@ def run_local(plan, s, res, tr):
                        f"({n} mod 10) = {want} (history {plan['local'][:i + 1][-8:]})")
                 return
             n += 1
+        elif op[0] == "next_with_update_inside":
+            # a start update arrives while a request is in progress (re-entrantly, from the start's own value read);
+            # which start that request itself used is not prescribed - the NEXT request must use the new one
+            new_start = ProbeStart(op[1])
+            state["on_read"] = lambda: seq.set_sequence_start(new_start)
+            got = seq.next_sequence()
+            state["on_read"] = None
+            res.count("fault.update_during_request")
+            tr.ev("local", "next+set", got, op[1])
+            if got not in (start + n % 10, op[1] + n % 10):
+                s.fail("sequence-value", "local", f"local history step {i}: request #{n} overlapping an update {start}->{op[1]} "
+                       f"returned {got}")
+                return
+            n += 1
+            start = op[1]
         else:
             state["outage"] = True
             try:
